@@ -68,7 +68,7 @@ def _mech(spec, tb, fb):
 
 _ALLOWED = {
     ":zero_buffer_on_domain_edge": ("raises:KeyError", "bounds_extend", "monotonicity", "contains_original"),
-    ":extreme_axis_scaling": ("bounds_extend", "monotonicity", "contains_original"),
+    ":extreme_axis_scaling": ("bounds_extend", "monotonicity", "contains_original", "raises:KeyError"),
 }
 
 
@@ -342,8 +342,13 @@ def run(ctx):
     n = ctx.scale(120, 900)
     for typ in geoms.TYPES:
         for i in range(n):
-            style = ["realistic", "edge", "dyadic", "realistic"][i % 4]
-            s = geoms.random_geom(rng, typ, style)
+            style = ["realistic", "edge", "dyadic", "realistic", "late"][i % 5]
+            if style == "late":
+                # the time axis has no upper limit: months into a deployment, or epoch seconds
+                late = rng.choice([6e6, 8.64e6] + ([1.7e9] if typ in ("TimeStamp", "TimeInterval", "BoundingBox") else []))
+                s = geoms.shift_time(geoms.random_geom(rng, typ, "dyadic"), late)
+            else:
+                s = geoms.random_geom(rng, typ, style)
             tb, fb = rng.choice(TB), rng.choice(FB)
             mode = rng.choice(["single", "mono_prop", "mono_free", "mono_one_axis"])
             tb2 = fb2 = None
